@@ -152,11 +152,11 @@ theorem analyze_sound (h : Sound sem dom Rel) :
     intro d s o hd hok
     simp only [analyze, Bool.and_eq_true] at hok
     obtain ⟨⟨hokb, hle0⟩, hst⟩ := hok
-    obtain ⟨hspec, hstable⟩ := loopFix_spec dom.join dom.le (analyze dom b) 8 d
+    obtain ⟨hspec, hstable⟩ := loopFix_spec dom.join dom.le (analyze dom b) dom.fuel d
     obtain ⟨hleN, hleB⟩ := hstable hst
     simp only [exec, analyze]
     rw [hspec] at hokb ⊢
-    generalize (loopFix dom.join dom.le (analyze dom b) 8 d).1 = H at *
+    generalize (loopFix dom.join dom.le (analyze dom b) dom.fuel d).1 = H at *
     have hH0 : Rel H s := h.le_sound _ _ _ hle0 hd
     -- inner induction on the iteration count
     have key : ∀ (n : Nat) (o : Oracle) (s : S), Rel H s →
